@@ -38,6 +38,13 @@ Theorem C08_self_replacement_elements : forall S P ig sel S' k, pattern_distinct
 Proof. exact self_replace_elements. Qed.
 Print Assumptions C08_self_replacement_elements.
 
+(* self-replacement is never refused: nothing is deleted, so matches that share atoms do not count as overlapping *)
+Theorem C08_self_replacement_never_refused : forall S P ig sel, pattern_distinct P ->
+  Forall (fun m => length (m_idx m) = natoms P /\ length (m_placed m) = natoms P) sel ->
+  replace_from S P P false ig sel <> Overlap.
+Proof. exact self_replace_never_refused. Qed.
+Print Assumptions C08_self_replacement_never_refused.
+
 (* the hypothesis is needed: with two coincident same-element atoms the second one maps onto the first *)
 Example C08_distinct_needed :
   let P := mk_atoms [(0,0,0)%Z; (0,0,0)%Z] [0;0] [0%Z;0%Z] [0%Z;0%Z] [[];[]] [] [6%Z] [12%Z] [6%Z] [] empty_kind empty_kind empty_kind empty_kind None in
